@@ -2,6 +2,7 @@ package props
 
 import (
 	"go/ast"
+	"go/constant"
 	"go/token"
 	"go/types"
 	"strings"
@@ -33,6 +34,8 @@ func init() {
 			{Name: "subparser-errors-dropped", File: pp, Old: "\tdefer func() { p.errors = append(p.errors, sp.errors...) }()\n", New: "", Expect: "subparser-errors/parser.domainTextLitEx"},
 			{Name: "subparser-errors-not-deferred", File: pp, Old: "\tdefer func() { p.errors = append(p.errors, sp.errors...) }()\n", New: "", Old2: "\tsp.expect(token.SEMICOLON)\n", New2: "\tsp.expect(token.SEMICOLON)\n\tp.errors = append(p.errors, sp.errors...)\n", Expect: "subparser-errors/parser.domainTextLitEx"},
 			{Name: "exprex-errors-dropped", File: pp, Old: "\tif err != nil {\n\t\tp.errors = append(p.errors, err...)\n\t\texpr = &ast.BadExpr{From: off, To: end}\n\t}", New: "\tif err != nil {\n\t\texpr = &ast.BadExpr{From: off, To: end}\n\t}", Expect: "subparser-errors/parser.stringLitExpr"},
+			{Name: "list-loop-without-eof", File: pp, Old: "\tfor p.tok != token.RBRACK && p.tok != token.EOF {", New: "\tfor p.tok != token.RBRACK {", Expect: "loop-eof/parser.parseTypeInstance"},
+			{Name: "comment-second-byte-unguarded", File: pp, Old: "\tif len(p.lit) > 1 && p.lit[1] == '*' {", New: "\tif p.lit[1] == '*' {", Expect: "lit-index/parser.consumeComment:p.lit[1]"},
 			{Name: "advance-no-guard", File: pp, Old: "\t\t\tif p.pos == p.syncPos && p.syncCnt < 10 {\n\t\t\t\tp.syncCnt++\n\t\t\t\treturn\n\t\t\t}", New: "\t\t\tif p.pos == p.syncPos {\n\t\t\t\treturn\n\t\t\t}", Expect: "progress/parser.advance"},
 			{Name: "scope-not-closed-on-path", File: pp, Old: "\tpos := p.expect(token.FOR)\n\tp.openScope()\n\tdefer p.closeScope()\n\n\tvar s1, s2, s3 ast.Stmt", New: "\tpos := p.expect(token.FOR)\n\tp.openScope()\n\n\tvar s1, s2, s3 ast.Stmt", Expect: "scope-pairing/parser.parseForStmt"},
 			{Name: "lambda-without-label-scope", File: pp, Old: "\t\t\tp.openLabelScope()\n\t\t\tbody = p.parseBlockStmt()\n\t\t\tp.closeLabelScope()\n", New: "\t\t\tbody = p.parseBlockStmt()\n", Expect: "closure-label-scope/parser.parseLambdaExpr"},
@@ -409,8 +412,149 @@ func runC13(c *core.Check) {
 		}
 		c.Decide(good, "progress", "parser.advance", afd.Pos(), "token-per-iteration loop; returns only under the syncPos/syncCnt guard", why)
 	}
+	// ---------- (d2) token loops stop at EOF: p.next() makes no progress at EOF, so a loop that keeps going there never
+	// ends. Every conditional loop of the parser that looks at the current token either tests `p.tok != token.EOF` or only
+	// tests the token positively (`p.tok == token.COMMA`), which is false at EOF. A loop driven by a helper such as
+	// atComma (true for every token other than `,` and the closing token — EOF included) needs the EOF test itself.
+	nLoops := 0
+	for _, fd := range core.AllFuncDecls(pk) {
+		if fd.Body == nil {
+			continue
+		}
+		seen := map[string]int{}
+		ast.Inspect(fd.Body, func(n ast.Node) bool {
+			fs, ok := n.(*ast.ForStmt)
+			if !ok || fs.Cond == nil {
+				return true
+			}
+			kind := eofBound(fs.Cond)
+			if kind == "not-a-token-loop" {
+				return true
+			}
+			nLoops++
+			key := core.FuncName(fd)
+			seen[key]++
+			if seen[key] > 1 {
+				key = core.Sprintf("%s#%d", key, seen[key])
+			}
+			c.Decide(kind == "bounded", "loop-eof", key, fs.Pos(), "the loop condition is false at EOF", "the condition of this token loop (`"+core.ExprStr(fs.Cond)+"`) is not false at end of input: it neither tests `p.tok != token.EOF` nor consists of positive token tests only, and p.next() makes no progress at EOF — an input that ends inside this construct makes the parser loop forever")
+			return true
+		})
+	}
+	c.Analysed("token_loops", nLoops)
+	c.Floor("loop-eof", 20)
+
+	// ---------- (d3) constant indexes into the current token's text: p.lit[k] with k >= 1 must be guarded by a length test
+	// (a comment token may be a single `#`); p.lit[0] is fine for tokens that always have text (comments, strings)
+	nIdx := 0
+	for _, fd := range core.AllFuncDecls(pk) {
+		if fd.Body == nil {
+			continue
+		}
+		par := parentMap(fd)
+		ast.Inspect(fd.Body, func(n ast.Node) bool {
+			ix, ok := n.(*ast.IndexExpr)
+			if !ok || nows(core.ExprStr(ix.X)) != "p.lit" {
+				return true
+			}
+			tv := info.Types[ix.Index]
+			if tv.Value == nil {
+				return true
+			}
+			k, _ := constant.Int64Val(tv.Value)
+			nIdx++
+			key := core.Sprintf("%s:p.lit[%d]", core.FuncName(fd), k)
+			if k == 0 {
+				c.Ok("lit-index", key, ix.Pos(), "index 0 of a token that always has text")
+				return true
+			}
+			// guarded: an enclosing condition (or the left operand of the && that holds the index) tests len(p.lit) > k
+			guarded := false
+			for p := par[ast.Node(ix)]; p != nil; p = par[p] {
+				var cond ast.Expr
+				switch x := p.(type) {
+				case *ast.BinaryExpr:
+					if x.Op == token.LAND {
+						cond = x.X
+					}
+				case *ast.IfStmt:
+					cond = x.Cond
+				}
+				if cond != nil && strings.Contains(nows(core.ExprStr(cond)), "len(p.lit)>") {
+					guarded = true
+				}
+			}
+			c.Decide(guarded, "lit-index", key, ix.Pos(), "guarded by a length test", core.Sprintf("p.lit[%d] is read without a `len(p.lit) > %d` guard: a one-byte `#` comment (or another short token text) makes ParseFile panic with index out of range", k, k))
+			return true
+		})
+	}
+	c.Analysed("constant_indexes_into_token_text", nIdx)
+	c.Floor("lit-index", 2)
+
 	// ---------- (e) scope pairing: an unbalanced scope trips assert("unbalanced scopes") at the end of parseFile
 	scopePairing(c, prog)
+}
+
+// eofBound classifies a loop condition of the parser: "bounded" (false at EOF), "unbounded", or "not-a-token-loop".
+func eofBound(cond ast.Expr) string {
+	mentionsTok, callsParser := false, false
+	ast.Inspect(cond, func(n ast.Node) bool {
+		switch x := n.(type) {
+		case *ast.SelectorExpr:
+			if id, ok := x.X.(*ast.Ident); ok && id.Name == "p" && x.Sel.Name == "tok" {
+				mentionsTok = true
+			}
+		case *ast.CallExpr:
+			if sel, ok := x.Fun.(*ast.SelectorExpr); ok {
+				if id, ok := sel.X.(*ast.Ident); ok && id.Name == "p" {
+					callsParser = true
+				}
+			}
+		}
+		return true
+	})
+	if !mentionsTok && !callsParser {
+		return "not-a-token-loop"
+	}
+	// falseAtEOF: the expression cannot hold when p.tok == EOF
+	var falseAtEOF func(e ast.Expr) bool
+	isTok := func(e ast.Expr) bool {
+		sel, ok := ast.Unparen(e).(*ast.SelectorExpr)
+		if !ok {
+			return false
+		}
+		id, ok := sel.X.(*ast.Ident)
+		return ok && id.Name == "p" && sel.Sel.Name == "tok"
+	}
+	isEOF := func(e ast.Expr) bool { return strings.HasSuffix(core.ExprStr(e), "token.EOF") }
+	falseAtEOF = func(e ast.Expr) bool {
+		e = ast.Unparen(e)
+		be, ok := e.(*ast.BinaryExpr)
+		if !ok {
+			return false
+		}
+		switch be.Op {
+		case token.LAND:
+			return falseAtEOF(be.X) || falseAtEOF(be.Y)
+		case token.LOR:
+			return falseAtEOF(be.X) && falseAtEOF(be.Y)
+		case token.NEQ:
+			return isTok(be.X) && isEOF(be.Y)
+		case token.EQL:
+			return isTok(be.X) && !isEOF(be.Y) // a positive test against another token
+		}
+		return false
+	}
+	if falseAtEOF(cond) {
+		return "bounded"
+	}
+	// `name0 != nil || <bounded>`: a one-shot flag the body clears (reviewed idiom of parseParameterList)
+	if be, ok := ast.Unparen(cond).(*ast.BinaryExpr); ok && be.Op == token.LOR {
+		if x, ok := ast.Unparen(be.X).(*ast.BinaryExpr); ok && x.Op == token.NEQ && core.ExprStr(x.Y) == "nil" && falseAtEOF(be.Y) {
+			return "bounded"
+		}
+	}
+	return "unbounded"
 }
 
 // c13ScopeNet: functions whose net scope effect is deliberately non-zero (function -> net, reason).
